@@ -35,6 +35,7 @@ Lemma main_stepA ch s s' : Inv c s -> InvA c s -> main_step c ch s = Some s' -> 
 Proof.
   intros HI HA H. old HI. oldA HA. main_cases c Hl s H.
   all: constructor; projs; realign.
+  all: try rewrite ?Hclosed.
   (* a_closed *)
   all: try solve [intros Hc; first [ discriminate Hc | reflexivity
                   | specialize (Acl Hc); rewrite Hpc in Acl; cbn in Acl; first [discriminate Acl | reflexivity] ]].
@@ -63,6 +64,7 @@ Lemma worker_stepA k s s' : Inv c s -> InvA c s -> k < nw s -> worker_step c k s
 Proof.
   intros HI HA Hk H. old HI. oldA HA. worker_cases c Hl s k H.
   all: constructor; projs; realign.
+  all: try rewrite ?Hclosed.
   all: try solve [assumption | reflexivity].
   (* crash branch of WRemove is impossible *)
   all: try solve [exfalso; apply Hmem; apply Arm; assumption].
